@@ -230,13 +230,16 @@ func (g *gen) badTx() TxSpec {
 		modes := []int{1, 2, 3, 4, 6, 7}
 		t.Amt = modes[r.Intn(len(modes))]
 	case 1:
-		t.Sign = r.Range(1, 7)
+		t.Sign = r.Range(1, 8)
 		if r.Bool(0.3) {
 			t.Sign = 0
 			t.InKind = 3 // someone else's output, own signature
 		}
 	case 2:
 		t.InKind = []int{1, 2, 4, 5, 7, 8, 9, 9}[r.Intn(8)]
+		if r.Bool(0.5) {
+			t.Seq = r.Range(1, 3) // the same outpoint under another input sequence number
+		}
 	}
 	return t
 }
